@@ -112,4 +112,6 @@ def main():
     print('operator self-test: %d comparisons, %d failures' % (n, len(failures)))
     for f in failures[:20]:
         print('  FAIL', f)
-    return 0 if not failures else 2
+    from . import reduction_test
+    rc = reduction_test.main()
+    return 0 if not failures and rc == 0 else 2
